@@ -629,6 +629,7 @@ def search(ck, rxns):
         search_cgr(ck, x, rng)
     search_identity(ck, corpus.sample(corpus.lipo(), 400, ck.seed, 'c15'), 60 if ck.tier == 'quick' else 400)
     search_directed(ck)
+    search_symmetric_rings(ck)
 
 
 def search_directed(ck):
@@ -1381,6 +1382,16 @@ def corr_morgan(ck, rxns):
             tuples.add((a.isotope or 0, a.atomic_number, a.charge, a.p_charge, int(a.is_radical), int(a.p_is_radical)))
         for _, _, bd in h.bonds():
             tuples.add((bd.order or 0, bd.p_order or 0))
+    # DynamicBond.__int__ (tie-break of the SMILES traversal between neighbours of equal Morgan class) on every bond kind
+    from chython.containers.bonds import DynamicBond
+    for o in (None, 1, 2, 3, 4, 8):
+        for p_ in (None, 1, 2, 3, 4, 8):
+            if o is None and p_ is None:
+                continue
+            bd = DynamicBond(o, p_)
+            cases.append(f'Z.eqb (dbond_int hash63 (mkDBond {opt(o, zraw)} {opt(p_, zraw)})) {zraw(int(bd))}')
+            meta.append(('bond-int', o, p_))
+            ck.case(('bond-int', o, p_), nontrivial=True)
     for t in sorted(tuples):
         cases.append(f'h_agree {zl(t)}')
         meta.append(('tuple', t))
@@ -1400,6 +1411,154 @@ def corr_morgan(ck, rxns):
         ck.unchecked('correspondence CgrMorgan model vs Morgan.atoms_order on condensed graphs', (log or '')[-1500:],
                      [repr(meta[i]) + ' :: ' + cases[i][:300] for i in failing[:20]])
     return ok and not failing
+
+
+# ---- the reaction-level cache across in-place standardisation methods (history: evaluate, modify in place, evaluate again)
+
+EXTRA_CACHE = r'''Import ListNotations.
+Open Scope Z_scope.
+(* the flag the method returns and whether the cache was flushed, from the molecules' own return values *)
+Definition cache_ok_b (results : list bool) (total flushed : bool) : bool :=
+  Bool.eqb (flag_any results) total && Bool.eqb flushed (flag_any results).
+Definition cache_ok_c (counts : list Z) (total : Z) (flushed : bool) : bool :=
+  Z.eqb (fold_left Z.add counts 0) total && Bool.eqb flushed (flag_count counts).
+'''
+
+HISTORY_METHODS = [('kekule', 'bool'), ('thiele', 'bool'), ('clean_isotopes', 'bool'), ('implicify_hydrogens', 'count'),
+                   ('explicify_hydrogens', 'count'), ('implicify_hydrogens', 'count'), ('clean_stereo', 'always'), ('canonicalize', 'search-only')]
+HISTORY_DIRECTED = [
+    '[CH:1]1=[CH:2][CH:3]=[CH:4][CH:5]=[CH:6]1>>[CH2:1]1[CH2:2][CH2:3][CH2:4][CH2:5][CH2:6]1',          # Kekule ring first, none last
+    '[CH2:1]1[CH2:2][CH2:3][CH2:4][CH2:5][CH2:6]1>>[CH:1]1=[CH:2][CH:3]=[CH:4][CH:5]=[CH:6]1',
+    '[CH:1]1=[CH:2][CH:3]=[CH:4][CH:5]=[CH:6]1.[OH2:7]>[ClH:8]>[CH2:1]1[CH2:2][CH2:3][CH2:4][CH2:5][CH2:6]1.[OH2:7]',
+    '[cH:1]1[cH:2][cH:3][cH:4][cH:5][cH:6]1>>[CH2:1]1[CH2:2][CH2:3][CH2:4][CH2:5][CH2:6]1',            # aromatic ring first (kekule)
+    '[cH:1]1[cH:2][cH:3][cH:4][cH:5][cH:6]1.[CH4:7]>>[CH4:7].[CH2:1]1[CH2:2][CH2:3][CH2:4][CH2:5][CH2:6]1',
+    '[13CH4:1].[CH4:2]>>[13CH4:1].[CH4:2]', '[CH4:2].[13CH4:1]>>[CH4:2]', '[13CH4:1]>[OH2:3]>[CH4:2]',     # isotopes first / last / none last
+    '[H:5][CH2:1][OH:2].[OH2:3]>>[CH3:1][OH:2].[OH2:3]', '[CH3:1][OH:2]>>[H:5][CH2:1][OH:2]',               # explicit hydrogens
+    '[CH3:1][C@H:2]([NH2:3])[OH:4].[OH2:5]>>[CH3:1][CH:2]([NH2:3])[OH:4].[OH2:5]',                           # stereo
+    '[CH:1]1=[CH:2][CH:3]=[CH:4][CH:5]=[CH:6]1>[CH:7]1=[CH:8][CH:9]=[CH:10][CH:11]=[N:12]1>',                # no products: the last molecule is a reagent
+    '[CH:1]1=[CH:2][CH:3]=[CH:4][CH:5]=[CH:6]1.[OH2:7]>>', '[O-:1][N+:2](=[O:3])[CH3:4].[OH2:5]>>[O:1]=[N:2](=[O:3])[CH3:4].[OH2:5]']
+
+
+def cgr_sig(r):
+    try:
+        h = ~r
+    except Exception as e:
+        return 'raises ' + type(e).__name__
+    return (sorted((n, a.atomic_number, a.isotope, a.charge, a.p_charge, a.is_radical, a.p_is_radical) for n, a in h.atoms()),
+            sorted((min(n, m), max(n, m), bd.order, bd.p_order) for n, m, bd in h.bonds()))
+
+
+def history_run(ck, rxn, tag, cases, meta):
+    """evaluate (fills the reaction cache), call an in-place method, evaluate again: the reaction must answer like a fresh
+    reaction built from copies of its (now modified) molecules; the flag and the flush follow the molecules' own results"""
+    from chython import ReactionContainer
+    r = ReactionContainer([m.copy() for m in rxn.reactants], [m.copy() for m in rxn.products], [m.copy() for m in rxn.reagents])
+    for name, kind in HISTORY_METHODS:
+        try:
+            s0, h0, c0 = str(r), hash(r), cgr_sig(r)
+            results = []
+            for m in r.molecules():
+                c = m.copy()
+                results.append(getattr(c, name)())
+            total = getattr(r, name)()
+        except Exception as e:
+            ck.count(f'history:{name}:not applicable ({type(e).__name__})')
+            return
+        flushed = not r.__dict__
+        # a new reaction object over the SAME molecule objects: fresh reaction-level cache, identical molecule-level state
+        fresh = ReactionContainer(r.reactants, r.products, r.reagents)
+        try:
+            s1, sf = str(r), str(fresh)
+            same = s1 == sf and hash(r) == hash(fresh) and (r == fresh) is True and cgr_sig(r) == cgr_sig(fresh)
+        except Exception as e:
+            ck.count(f'history:{name}:not applicable ({type(e).__name__})')
+            return
+        changed = bool(total) if kind != 'always' else True
+        ck.case(('history', tag, name), nontrivial=changed)
+        ck.count(f'history:{name}:' + ('changed' if changed else 'unchanged') +
+                 (':only an earlier molecule changed' if kind in ('bool', 'count') and results and any(results[:-1]) and not results[-1] else ''))
+        if not same:
+            rp = (REPLAY_HEAD + f"r = build({rx_repr(rxn)!r})\n" +
+                  ''.join(f"str(r); hash(r); r.{nm}()\n" for nm, _ in HISTORY_METHODS[:[x[0] for x in HISTORY_METHODS].index(name) + 1]) +
+                  "f = ReactionContainer(r.reactants, r.products, r.reagents)\nprint(str(r)); print(str(f))")
+            ck.counterexample(f'stale-cache:{name}:{tag}', f'after str()/hash()/~ and then {name}() the reaction still answers from its cache: it differs from a new '
+                              'reaction object over the same molecules', {'roles': rx_repr(rxn), 'method': name}, (s1, cgr_sig(r)), (sf, cgr_sig(fresh)),
+                              'a new ReactionContainer over the same molecule objects (fresh reaction-level cache)', replay_py=rp)
+            return
+        if kind == 'bool':
+            cases.append(f'cache_ok_b {lst([bool(x) for x in results], b)} {b(bool(total))} {b(flushed)}')
+            meta.append((tag, name, results, total, flushed))
+        elif kind == 'count':
+            cases.append(f'cache_ok_c {lst([int(x) for x in results], zraw)} {zraw(int(total))} {b(flushed)}')
+            meta.append((tag, name, results, total, flushed))
+
+
+def corr_cache(ck, rxns):
+    from chython import smiles
+    cases, meta = [], []
+    for s in HISTORY_DIRECTED:
+        try:
+            history_run(ck, smiles(s), 'directed:' + s, cases, meta)
+        except Exception as e:
+            ck.count('history:directed input refused ' + type(e).__name__)
+    for x in (rxns[:40] if ck.tier == 'quick' else rxns[:400]):
+        history_run(ck, x.rxn, x.desc['idx'], cases, meta)
+    ok, failing, log = coqcases.run_cases('c15_cache', 'RxnCache', cases, extra=EXTRA_CACHE, shard=400)
+    ck.oblige('correspondence: flag and cache flush of ReactionContainer.thiele / kekule / clean_isotopes / implicify_hydrogens / explicify_hydrogens == Coq model (RxnCache.v)',
+              ok and not failing, 'correspondence', log or str([meta[i] for i in failing[:5]]))
+    ck.extra['correspondence_cases_cache'] = len(cases)
+    if not ok or failing:
+        ck.unchecked('correspondence RxnCache model vs chython/algorithms/standardize/reaction.py', (log or '')[-1500:],
+                     [repr(meta[i]) for i in failing[:20]])
+    return ok and not failing
+
+
+# ---- rings of symmetry-equivalent atoms with alternating dynamic bonds (cycloreversions and the like)
+
+RING_KINDS = [(1, 2), (1, None), (1, 1), (2, 1), (2, None), (2, 2), (1, 3), (None, 1), (None, 2), (2, 3), (3, None), (3, 1)]
+
+
+def search_symmetric_rings(ck):
+    """str(r ^ p) of a ring whose atoms are all in one Morgan class and whose bonds alternate between two kinds of dynamic bond
+    (e.g. cyclobutane >> 2 ethylene, cyclohexane >> 3 ethylene, cyclobutane >> cyclobutadiene) is one string for every numbering
+    and every storage order of atoms and bonds"""
+    from chython import MoleculeContainer
+    rng = random.Random(f'{ck.seed}:c15:rings')
+
+    def ring(n, ka, kb, side, numbering, order_atoms, order_bonds):
+        m = MoleculeContainer()
+        for i in order_atoms:
+            m.add_atom('C', numbering[i])
+        for i in order_bonds:
+            o = (ka if i % 2 == 0 else kb)[side]
+            if o is not None:
+                m.add_bond(numbering[i], numbering[(i + 1) % n], o)
+        return m
+    for n in ((4, 6) if ck.tier == 'quick' else (4, 6, 8, 10)):
+        for ka, kb in itertools.permutations(RING_KINDS, 2):
+            seen = {}
+            for t in range(7 if ck.tier == 'quick' else 16):
+                nums, oa, ob = list(range(1, n + 1)), list(range(n)), list(range(n))
+                if t:
+                    rng.shuffle(nums)
+                    rng.shuffle(oa)
+                    rng.shuffle(ob)
+                try:
+                    st = str(ring(n, ka, kb, 0, nums, oa, ob) ^ ring(n, ka, kb, 1, nums, oa, ob))
+                except Exception as e:
+                    st = 'raises ' + type(e).__name__
+                seen.setdefault(st, (nums, oa, ob))
+            ck.case(('sym-ring', n, ka, kb), nontrivial=True)
+            ck.count('search:symmetric ring, alternating dynamic bonds')
+            if len(seen) > 1:
+                (s1, v1), (s2, v2) = list(seen.items())[:2]
+                ck.counterexample(f'cgr-renumber-string:ring{n}:{ka}:{kb}', 'the canonical string of the condensed graph of a symmetric ring with alternating '
+                                  'dynamic bonds depends on the numbering / storage order', {'ring size': n, 'bond kinds (order, p_order)': [ka, kb],
+                                  'numbering, atom order, bond order (a)': v1, '(b)': v2}, s2, s1, 'the same reaction renumbered and rebuilt in another order',
+                                  replay_py=("from chython import MoleculeContainer\n"
+                                             "def ring(n, ka, kb, side, nums, oa, ob):\n    m = MoleculeContainer()\n    for i in oa: m.add_atom('C', nums[i])\n"
+                                             "    for i in ob:\n        o = (ka if i % 2 == 0 else kb)[side]\n        if o is not None: m.add_bond(nums[i], nums[(i + 1) % n], o)\n    return m\n"
+                                             f"for v in ({v1!r}, {v2!r}):\n    print(str(ring({n}, {ka}, {kb}, 0, *v) ^ ring({n}, {ka}, {kb}, 1, *v)))"))
 
 
 def run(ck):
@@ -1443,6 +1602,7 @@ def run(ck):
     tied = timed('corr reader', corr_reader, ck, rxns) and tied
     tied = timed('corr tokens', corr_tokens, ck, rxns) and tied
     tied = timed('corr morgan', corr_morgan, ck, rxns) and tied
+    tied = timed('corr cache + history search', corr_cache, ck, rxns) and tied
     timed('search', search, ck, rxns)
     ck.extra['phase_seconds'] = phases
     ck.extra['proved'] = proved
